@@ -247,6 +247,10 @@ func (w *World) mutateProposal(n *Node, h int64, t time.Time, pv *cmttypes.Valid
 		}
 		a := attrs()
 		a.Timestamp = uint64(simrt.Epoch.Add(simrt.GlobalNow()).Unix()) + 5 + uint64(r.Intn(600))
+		if r.Chance(0.35) {
+			// the far end of the range, where conversions to signed seconds or to time.Time wrap
+			a.Timestamp = pick(r, []uint64{1<<63 - 2, 1<<63 - 1, 1 << 63, 1<<63 + 1, ^uint64(0), ^uint64(0) - 1, 1<<63 - 62135596800, 1<<63 - 62135596801, 1 << 62, 1 << 33})
+		}
 		np, ok := w.rebuildPayload(n, parent, a, p.BeaconRoot)
 		if !ok {
 			return nil, false
@@ -462,6 +466,10 @@ func (w *World) proposalConditions(verifier *Node, h int64, pv *cmttypes.Validat
 	}
 	if !verifier.EL.Known[common.BytesToHash(first.Payload.BlockHash)] {
 		return false, "the verifier's engine has not validated this payload"
+	}
+	// not from the verifier's future (its clock can only have advanced since it gave its verdict)
+	if now := simrt.Epoch.Add(simrt.GlobalNow() + verifier.Env.ClockOffset).Unix(); now >= 0 && first.Payload.Timestamp > uint64(now) {
+		return false, "payload timestamp in the verifier's future"
 	}
 	return true, ""
 }
